@@ -1,8 +1,195 @@
-(** * C13 - a Markdown document becomes its recipes plus ordinary CommonMark. *)
-From Coq Require Import List ZArith NArith Bool String.
-From RG Require Import Base.Str Base.Num Model.Recipe Model.Brace Model.Markdown.
+(** * C13 - a Markdown document becomes its recipes plus ordinary CommonMark
+    (and the Markdown-prose clause of C03: numbers in brace expressions are scaled).
+
+    Setting.  CommonMark conversion is marko's (third party) and is not modelled: a document
+    is the flat sequence of pieces ([Model.Markdown.item]) that marko's own parser and renderer
+    produce, cut where recipe_grid's renderer mixin takes over (headings, brace expressions,
+    code blocks).  Everything recipe_grid adds is modelled string-exactly in Model/Markdown.v
+    ([md_compile] = compile_markdown, [md_render] = MarkdownRecipe.render with its three passes
+    of [str.replace] over random placeholders) and Model/Brace.v (the ScaledValueExpression
+    regular expressions).  Oracles: [alt_escape] (marko's attribute escaping), [compile]
+    (recipe_grid.compiler.compile, C01..), [render_block] (render_recipe_tree of the scaled trees,
+    C02/C04).  Spec/MarkdownSpec.v [spec_render] says what the page is without any placeholder.
+
+    Brace expressions inside image alt text (where only plain text can stand) are rendered
+    UNSCALED as plain text (marko renders alt text with render_plain_text; recipe_grid gives the
+    element [children = str(self.string)]); everywhere else in prose they are scaled.  The
+    specification states exactly that ([Alt] / [IAlt] pieces).
+
+    A plain top-level first heading whose text contains "%" is NOT given the title header
+    (markdown.py tests ["%" not in text] to exclude its own placeholders): [spec_render] says
+    so explicitly ([is_plain_title]); that behaviour is C18's finding, not hidden here. *)
+From Coq Require Import List ZArith NArith Bool Arith.
+From Coq Require String.
+Import String.StringSyntax.
+Delimit Scope string_scope with string.
+From RG Require Import Base.Str Base.Dec Base.Num Model.Recipe Model.NumFmt Model.LineCol
+  Model.Brace Model.Markdown Spec.MarkdownSpec Gen.GenBrace.
+From RG Require Import Proofs.Replace Proofs.MarkdownText Proofs.MarkdownSubst
+  Proofs.MarkdownCompile Proofs.MarkdownRender.
 Import ListNotations.
 
-Example C13_model_example :
-  brace_parse (s "1 1/2 cups") = BOk [PNum (NFrac 3 2); PStr (s " cups")].
+(** ** Pins: the regular expressions and constants the hand-written model was built for *)
+
+Example C13_pin_patterns :
+  sve_fraction_pattern = BracePin.fraction_pattern /\
+  sve_decimal_pattern = BracePin.decimal_pattern /\
+  sve_free_text_pattern = BracePin.free_text_pattern /\
+  sve_any_part_pattern = BracePin.any_part_pattern /\
+  sve_pattern = BracePin.pattern.
+Proof. repeat split; reflexivity. Qed.
+
+(** 32 letters drawn from A-Z; the elements / mixin / render methods the model covers. *)
+Example C13_pin_constants :
+  placeholder_random_chars = 32%N /\
+  forallb is_upper placeholder_alphabet = true /\
+  recipe_grid_elements = ["ScaledValueExpression"; "Document"; "CodeBlock"; "FencedCode"]%string /\
+  recipe_grid_renderer_mixins = ["RecipeGridRendererMixin"]%string /\
+  mixin_render_methods = ["render_code_block"; "render_document"; "render_fenced_code"; "render_heading";
+                          "render_recipe_source_block"; "render_scaled_value_expression"]%string.
+Proof. repeat split; reflexivity. Qed.
+
+(** ** [str.replace] on a text containing the token exactly once *)
+
+Theorem C13_replace_once : forall (p v a b : str),
+  p <> [] -> occ p (a ++ p ++ b) = 1%nat -> replace p v (a ++ p ++ b) = a ++ v ++ b.
+Proof. exact replace_once. Qed.
+
+Example C13_replace_once_ex :
+  occ (s "%AB%") (s "x %AB% y") = 1%nat /\ replace (s "%AB%") (s "<b>") (s "x %AB% y") = s "x <b> y" /\
+  replace (s "aa") (s "b") (s "aaa") = s "ba".
+Proof. repeat split; reflexivity. Qed.
+
+(** ** Which blocks are recipe blocks, and how they are grouped *)
+
+(** The blocks the implementation captures while rendering are exactly the indented code
+    blocks and the fenced blocks tagged recipe / new-recipe ([spec_blocks] = the [Code] items
+    satisfying [is_recipe_block]), in document order. *)
+Theorem C13_blocks_exact : forall alt_escape items slugs html st,
+  NoDup slugs -> Forall (fun g => slug_ok g = true) slugs ->
+  render_items alt_escape (init_state slugs) items = MOk (html, st) ->
+  map snd (concat (rev (st_groups st))) = map to_rsb (spec_blocks items).
+Proof. intros. eapply blocks_and_groups; eassumption. Qed.
+
+Example C13_is_recipe_block_ex :
+  is_recipe_block false (s "python") = true /\          (* indented: whatever marko says its language is *)
+  is_recipe_block true (s "recipe") = true /\ is_recipe_block true (s "new-recipe") = true /\
+  is_recipe_block true (s "python") = false /\ is_recipe_block true (s "Recipe") = false /\
+  is_recipe_block true (s "") = false /\ is_recipe_block true (s "recipes") = false.
+Proof. repeat split; reflexivity. Qed.
+
+(** They share one namespace until a new-recipe block starts a fresh one. *)
+Theorem C13_groups : forall alt_escape items slugs html st,
+  NoDup slugs -> Forall (fun g => slug_ok g = true) slugs ->
+  render_items alt_escape (init_state slugs) items = MOk (html, st) ->
+  map (map snd) (rev (st_groups st)) = map (map to_rsb) (spec_groups (spec_blocks items)).
+Proof. intros. eapply blocks_and_groups; eassumption. Qed.
+
+(** [spec_groups] without reference to the procedure: the groups, concatenated, are the blocks;
+    no group is empty; only the head of a group can be a new-recipe block; every group after the
+    first begins with one. *)
+Theorem C13_groups_concat : forall bs, concat (spec_groups bs) = bs.
+Proof. exact spec_groups_concat. Qed.
+
+Theorem C13_groups_shape : forall bs,
+  Forall (fun g => g <> [] /\ tails_plain g) (spec_groups bs) /\
+  (forall g, In g (tl (spec_groups bs)) -> exists b r, g = b :: r /\ starts_group b = true).
+Proof. exact spec_groups_shape. Qed.
+
+Example C13_groups_ex :
+  let r := mkSB true (s "recipe") [] 0 in
+  let n := mkSB true (s "new-recipe") [] 0 in
+  let i := mkSB false [] [] 0 in
+  spec_groups [r; i; n; r; n] = [[r; i]; [n; r]; [n]].
+Proof. reflexivity. Qed.
+
+(** Each group is compiled on its own (so names are shared inside a group and only there), and
+    [MarkdownRecipe.recipes] is the list of these compilations: the result "equals compiling the
+    block texts directly" (with the line-number padding of C19 in front of each text). *)
+Theorem C13_compile_per_group : forall alt_escape compile d slugs m,
+  compile_len_ok compile ->
+  NoDup slugs -> Forall (fun g => slug_ok g = true) slugs ->
+  md_compile alt_escape compile d slugs = MOk m ->
+  exists results,
+    Forall2 (fun group r => compile (map (padded_source (d_text d)) group) = Some r)
+            (spec_groups (spec_blocks (d_items d))) results /\
+    md_recipes m = results.
+Proof. intros. eapply compile_per_group; eassumption. Qed.
+
+(** ** The rendered page *)
+
+(** Under [Fresh] (every [str.replace] of a placeholder finds it exactly once; the placeholders
+    are pairwise distinct - a hypothesis about the random draw, never an axiom; [slug_ok]: the
+    32 letters are upper-case letters, as [generate_placeholder] draws them) the implementation's
+    output is the placeholder-free specification. *)
+Theorem C13_render_spec : forall alt_escape compile render_block k d slugs,
+  compile_len_ok compile ->
+  Forall (fun g => slug_ok g = true) slugs ->
+  Fresh alt_escape compile render_block k d slugs ->
+  md_render alt_escape compile render_block k d slugs = spec_render alt_escape compile render_block k d.
+Proof. intros. apply render_spec; assumption. Qed.
+
+(** No placeholder residue: whatever occurs in the output occurs in the specification text, which
+    is computed without any placeholder. *)
+Theorem C13_no_residue : forall alt_escape compile render_block k d slugs h,
+  compile_len_ok compile ->
+  Forall (fun g => slug_ok g = true) slugs ->
+  Fresh alt_escape compile render_block k d slugs ->
+  md_render alt_escape compile render_block k d slugs = MOk h ->
+  spec_render alt_escape compile render_block k d = MOk h /\
+  forall g h', spec_render alt_escape compile render_block k d = MOk h' ->
+               occ (mk_placeholder g) h' = 0%nat -> occ (mk_placeholder g) h = 0%nat.
+Proof.
+  intros ae cp rb k d slugs h Hl Hok Hf Hr.
+  rewrite (render_spec ae cp rb Hl k d slugs Hok Hf) in Hr. split; [exact Hr|].
+  intros g h' E. rewrite Hr in E. injection E as <-. auto.
+Qed.
+
+(** The output does not depend on which fresh placeholders were drawn (hence not on the state of
+    the random generator, nor on earlier compilations, which influence nothing else). *)
+Theorem C13_rng_independent : forall alt_escape compile render_block k d slugs slugs',
+  compile_len_ok compile ->
+  Forall (fun g => slug_ok g = true) slugs -> Forall (fun g => slug_ok g = true) slugs' ->
+  Fresh alt_escape compile render_block k d slugs ->
+  Fresh alt_escape compile render_block k d slugs' ->
+  md_render alt_escape compile render_block k d slugs = md_render alt_escape compile render_block k d slugs'.
+Proof.
+  intros ae cp rb k d s1 s2 Hl H1 H2 F1 F2.
+  rewrite (render_spec ae cp rb Hl k d s1 H1 F1), (render_spec ae cp rb Hl k d s2 H2 F2). reflexivity.
+Qed.
+
+(** *** The hypotheses are satisfiable: a concrete document, two different draws *)
+
+Definition ex_compile (srcs : list str) : option (list (list node)) :=
+  Some (map (fun _ => [Ingredient [PStr (s "egg")] (Some (mkQ (NInt 1) None [] []))]) srcs).
+Definition ex_render (k : num) (prefix : str) (trees : list node) : list str :=
+  map (fun _ => s "<table id=""" ++ prefix ++ s "t""></table>") trees.
+Definition ex_doc : doc :=
+  mkDoc (s "# Spam for 2")
+    [ Heading 1 [ILit (s "Spam for 2")]; Lit (s "<p>Take "); Brace (s "1 1/2 large");
+      Lit (s " eggs <img alt="""); Alt (s "2 x"); Lit (s """ /></p>");
+      Code false [] (s "1 egg") 0 (s "<pre>1 egg</pre>"); Code true (s "python") (s "x") 0 (s "<pre>x</pre>");
+      Code true (s "new-recipe") (s "1 egg") 0 []; Heading 1 [ILit (s "Other for 3")] ].
+Definition ex_slugs1 : list str := map s ["AAAA"; "BBBB"; "CCCC"; "DDDD"; "EEEE"; "FFFF"]%string.
+Definition ex_slugs2 : list str := map s ["QQQQ"; "ZZZZ"; "XXXX"; "YYYY"; "WWWW"; "VVVV"]%string.
+
+Example C13_hypotheses_ex :
+  compile_len_ok ex_compile /\
+  Forall (fun g => slug_ok g = true) ex_slugs1 /\ Forall (fun g => slug_ok g = true) ex_slugs2 /\
+  Fresh (fun x => x) ex_compile ex_render (NInt 2) ex_doc ex_slugs1 /\
+  Fresh (fun x => x) ex_compile ex_render (NFrac 1 3) ex_doc ex_slugs2.
+Proof.
+  split; [intros srcs bs H; injection H as <-; apply map_length|].
+  split; [repeat constructor|]. split; [repeat constructor|].
+  split; apply freshb_Fresh; vm_compute; reflexivity.
+Qed.
+
+Example C13_render_ex :
+  md_render (fun x => x) ex_compile ex_render (NInt 2) ex_doc ex_slugs1 =
+  MOk (s "<header><h1 class=""rg-title-scalable"">Spam <span class=""rg-serving-count"">for "
+       ++ s "<span class=""rg-scaled-value"">4</span></span></h1>"
+       ++ s "<p>Rescaled from <span class=""rg-original-servings"">2 servings</span>.</p></header>" ++ [10%N]
+       ++ s "<p>Take <span class=""rg-scaled-value"">3</span> large eggs <img alt=""2 x"" /></p>"
+       ++ s "<div class=""rg-recipe-block""><table id=""recipe-t""></table></div><pre>x</pre>"
+       ++ s "<div class=""rg-recipe-block""><table id=""recipe2-t""></table></div><h1>Other for 3</h1>" ++ [10%N]).
 Proof. vm_compute. reflexivity. Qed.
